@@ -3,7 +3,7 @@
 # in seeded/<id>/checks if present). Results go to seeded/RESULTS.jsonl (one line per (seed, check)).
 # /repo is patched while this runs: do not run other checks concurrently.
 set -u
-cd /verif || exit 2
+cd "$(dirname "$0")/.." || exit 2
 OUT=seeded/RESULTS.jsonl
 : > "$OUT.tmp"
 if [ $# -gt 0 ]; then LIST=""; for S in "$@"; do LIST="$LIST seeded/$S/"; done; else LIST=$(ls -d seeded/C*-*/); fi
